@@ -101,16 +101,24 @@ UNIT = dict(
 """)],
              obls=["C03.V.max_of_last_byte"]),
     ] + [fn_item(n, b) for n, b in WIDTHS],
-    trailer="""
-// smoke callers: only verify if the contracts' preconditions are satisfiable and the results usable
-fn smoke_varint() {
+    trailer_parts=[
+        (["varint_u16"], """
+fn smoke_varint_u16() {
     let mut b16 = [0u8; 3];
     let r = varint_u16(300, &mut b16);
     assert(r@.len() <= 3);
+}
+"""),
+        (["varint_u128"], """
+fn smoke_varint_u128() {
     let mut b128 = [0u8; 19];
     let r2 = varint_u128(0, &mut b128);
     proof { lemma_enc_canonical(0); }
     assert(r2@ =~= seq![0u8]);
+}
+"""),
+        (["varint_max", "max_of_last_byte"], """
+fn smoke_varint_max() {
     let m = varint_max::<u32>();
     assert(m == 5);
     let l = max_of_last_byte::<u32>();
@@ -118,5 +126,6 @@ fn smoke_varint() {
     let l64 = max_of_last_byte::<u64>();
     assert(l64 == 1);
 }
-""",
+"""),
+    ],
 )
